@@ -116,6 +116,11 @@ pub struct RecCollect {
     /// when true, `event`/`new_span` self-check the filter and flag spurious deliveries immediately
     pub self_check: bool,
     metas: Mutex<HashMap<u64, &'static Metadata<'static>>>,
+    /// when true, `clone_span` hands out a fresh id per handle (a legal, pointer-like id scheme): every id
+    /// issued by `new_span` or `clone_span` then stands for exactly one handle
+    pub handle_ids: bool,
+    /// per-handle id -> the id `new_span` returned for that span
+    aliases: Mutex<HashMap<u64, u64>>,
 }
 
 thread_local! {
@@ -160,13 +165,20 @@ impl tracing_core::field::Visit for ValVisitor {
 
 impl RecCollect {
     pub fn new(k: usize, filter: FilterSpec) -> Self {
-        RecCollect { k, filter, flipped: AtomicBool::new(false), next_id: AtomicU64::new(1 + k as u64 * 1_000_000), self_check: true, metas: Mutex::new(HashMap::new()) }
+        RecCollect { k, filter, flipped: AtomicBool::new(false), next_id: AtomicU64::new(1 + k as u64 * 1_000_000), self_check: true, metas: Mutex::new(HashMap::new()), handle_ids: false, aliases: Mutex::new(HashMap::new()) }
     }
     fn log(&self, kind: &'static str, meta: Option<&Metadata<'_>>, id: u64, id2: u64, val: u64, flag: bool) {
         let (site, skind, name) = meta.map(site_of).unwrap_or((-1, 9, ""));
         let r = Rec { stamp: detsim::stamp(), thread: detsim::current(), k: self.k, kind, site, skind, name, id, id2, val, flag };
         ev(format!("c{} t{} {} s{} k{} id{} {} v{} {}", r.k, r.thread, kind, site, skind, id, id2, val, flag));
         LOG.lock().unwrap().push(r);
+    }
+    pub fn with_handle_ids(mut self) -> Self {
+        self.handle_ids = true;
+        self
+    }
+    fn root(&self, id: u64) -> u64 {
+        self.aliases.lock().unwrap().get(&id).copied().unwrap_or(id)
     }
     pub fn accepts_meta(&self, meta: &Metadata<'_>) -> bool {
         let lvl = sites::level_num(meta.level());
@@ -248,7 +260,7 @@ impl Collect for RecCollect {
     }
     fn enter(&self, span: &Id) {
         // metadata is not available here; the stack keeps ids only (metadata slot unused)
-        let meta = self.metas.lock().unwrap().get(&span.into_u64()).copied().unwrap_or(&NULL_META);
+        let meta = self.metas.lock().unwrap().get(&self.root(span.into_u64())).copied().unwrap_or(&NULL_META);
         STACKS.with(|s| s.borrow_mut().entry(self.k).or_default().push((span.into_u64(), meta)));
         self.log("enter", None, span.into_u64(), 0, 0, true);
     }
@@ -263,6 +275,13 @@ impl Collect for RecCollect {
         self.log("exit", None, span.into_u64(), 0, 0, true);
     }
     fn clone_span(&self, id: &Id) -> Id {
+        if self.handle_ids {
+            let new = self.next_id.fetch_add(1, Ordering::SeqCst);
+            let root = self.root(id.into_u64());
+            self.aliases.lock().unwrap().insert(new, root);
+            self.log("clone_span", None, id.into_u64(), new, 0, true);
+            return Id::from_u64(new);
+        }
         self.log("clone_span", None, id.into_u64(), 0, 0, true);
         id.clone()
     }
